@@ -225,7 +225,7 @@ func runStmts(c *vp.Child) {
 	defer r.close()
 	cp := corpus()
 	k := 0
-	perStyle := c.Pick(6, 120)
+	perStyle := c.Pick(6, 100)
 	for ci, ch := range cp {
 		ts, err := lex(ch.src)
 		if err != nil {
@@ -272,5 +272,7 @@ func runStmts(c *vp.Child) {
 			}
 		}
 	}
-	c.Feature("corpus-chunks", int64(len(cp))/int64(c.NB)+1)
+	if c.Batch == 0 {
+		c.Feature("corpus-chunks", int64(len(cp)))
+	}
 }
